@@ -238,11 +238,13 @@ CHECKS = {
             plain("regress", "^TestRegressC14"),
             rapid("args", "^TestC14Args$", 40000, 3),
             rapid("messages", "^TestC14Messages$", 40000, 1),
+            rapid("twocalls", "^TestC14TwoCalls$", 20000, 1),
         ],
         "thorough": [
             plain("regress", "^TestRegressC14"),
             rapid("args", "^TestC14Args$", 600000, 12, timeout=3000),
             rapid("messages", "^TestC14Messages$", 600000, 4, timeout=3000),
+            rapid("twocalls", "^TestC14TwoCalls$", 300000, 4, timeout=3000),
         ],
     },
     "C15": {
